@@ -283,6 +283,18 @@ pub fn run(op: &str, v: &Value) -> Value {
             }
             json!({"imports": imports, "canonical": canon, "satisfies": sat})
         }
+        // {"world": {imports, exports}, "component": {imports, exports}} -> wac_types::validate_target
+        "validate_target" => {
+            let mut t = Types::default();
+            let w = match item(&mut t, &json!({"component": v["world"]})) { ItemKind::Component(id) => id, _ => unreachable!() };
+            let c = match item(&mut t, &json!({"component": v["component"]})) { ItemKind::Component(id) => id, _ => unreachable!() };
+            match validate_target(&t, w, c) {
+                Ok(()) => json!({"ok": true}),
+                Err(r) => json!({"ok": false, "imports_not_in_target": r.imports_not_in_target().collect::<Vec<_>>(),
+                                 "missing_exports": r.missing_exports().map(|(n, _)| n).collect::<Vec<_>>(),
+                                 "mismatched": r.mismatched_types().map(|(n, _, _)| n).collect::<Vec<_>>()}),
+            }
+        }
         "package_from_wat" => {
             let wat_text = v["wat"].as_str().unwrap();
             let bytes = match wat::parse_str(wat_text) {
